@@ -19,6 +19,7 @@ PROPS = {
         "kernel_sample": {"quick": 30, "thorough": 100},
     },
     "C01": {
+        "pf": True,
         "n": {"quick": 220, "thorough": 12000},
         "cone": ["Bytes", "BytesLemmas", "Regex", "Generated", "Channel", "Session", "SessionLemmas", "Replay"],
         "rx": True,
@@ -139,17 +140,19 @@ PROPS = {
         "assumptions": ["user command lines do not themselves change the device mode (history clause)"],
     },
     "C05": {
+        "pf": True,
         "n": {"quick": 220, "thorough": 6000},
         "compare": "member",
-        "cone": ["Bytes", "Regex", "Generated", "Channel", "Network", "Replay", "SessionLemmas"],
+        "cone": ["Bytes", "Regex", "Generated", "Channel", "Network", "Replay", "SessionLemmas", "Netconf", "NcSession"],
         "rx": True,
         "rule": "CLI sessions (generic SendCommand / GetPrompt / SendInteractive, network SendCommand with an implicit privilege change, AcquirePriv) "
                 "with the device going silent after byte k of the exchange: k from a dry run of the same case, every k of one small exchange "
                 "exhaustively plus random k; connection-wide 60 ms and per-operation 35 ms (over a 2 s connection-wide) timeouts; after the error the "
                 "device resumes and the next command runs (recovery clause, for stalls after the return was sent). The logged schedule (with the "
                 "observed deadline) is replayed by the model. Oracle: timeout (privilege for the implicit change) within [timeout, timeout+250 ms], "
-                "never success with a result other than the dry run's, next command's result = its own. NETCONF open/RPC timeouts are exercised "
-                "under C08/C09.",
+                "never success with a result other than the dry run's, next command's result = its own. NETCONF: a third of the cases are NETCONF sessions (1.0/1.1, "
+                "all chunkings but the message-id-splitting ones) in which some RPC is answered after the client's timeout or never and later RPCs "
+                "on time: timeout for that RPC, own reply for every later one (replayed by the NcSession model); NETCONF open timeouts under C09.",
         "level_text": "Model: every read-until carries its deadline continuation (Channel.Until c k h); a Deadline event at a read-until yields the timeout "
                       "error through every enclosing handler (so a failed implicit privilege change is a privilege error), and a finished operation "
                       "consumes nothing more (SessionLemmas.failed_is_final, deadline_at_until: proved for all schedules). Tied to the code by "
@@ -158,6 +161,7 @@ PROPS = {
                       "on every case. Timeout precedence (get_timeout) and per-program timeout theorems: ChanTraceLemmas (when built).",
     },
     "C06": {
+        "pf": True,
         "n": {"quick": 220, "thorough": 6000},
         "compare": "member",
         "cone": ["Bytes", "Regex", "Generated", "Channel", "Network", "Replay", "SessionLemmas"],
